@@ -1,12 +1,373 @@
-/- C14 model — placeholder until the property is built -/
+/-
+  C14 — `IpcClient`: labelled transition system of klongpy/sys_fn_ipc.py `NetworkClient`
+  as seen by its callers.
+
+  Mirrors (klongpy/sys_fn_ipc.py):
+    NetworkClient.call                      -> caller-thread labels `check`, `reg`, `submit`
+                                               and io-loop labels `send`, `drain`, `deliver`
+                                               (the coroutine `send_message_and_get_result`)
+    NetworkClient.close                     -> `check c true` (returns at once when not running,
+                                               otherwise an ordinary call whose answer is the
+                                               close object)
+    NetworkClient._listen / stream_recv_msg -> `recv` (three `readexactly`, pop by id, set_result;
+                                               close ack / remote close request / server push)
+    NetworkClient._run (except/finally)     -> `lexit` (writer := None, start of the cleanup)
+    NetworkClient._cleanup_pending_responses-> `cl` (one iteration), `clr` (`d.clear()`)
+        pinned : `for f in d.values(): f.set_exception(e)` then `d.clear()` — the iterator checks the
+                 dictionary size on every `next` (CPython `dictiter_iternextvalue`)
+        fixed  : `fs = list(d.values()); d.clear(); for f in fs: if not f.done(): f.set_exception(e)`
+                 and `call` pops its id from the table when its coroutine ends
+    ConnectionProvider.is_open              -> `provOpen` (changed by the environment: `provClose`)
+    StreamReader.feed_data/feed_eof/set_exception -> environment labels `feed`, `eof`, `reset`
+    StreamWriter.drain raising              -> environment label `breakWriter`
+
+  Granularity: every label is one step that Python can interleave with steps of other threads.
+  Caller-thread labels and environment labels are enabled in every listener state, also in the
+  middle of the cleanup; io-loop labels other than `cl`/`clr` are not (the cleanup runs
+  synchronously on the io-loop thread).  Single dictionary operations are atomic; the iteration
+  of the pinned cleanup is not.
+
+  Call ids: a call is named by its index `c`; the uuid the code draws is that name (the harness
+  translates; uuid4 uniqueness is an assumption).  The server is adversarial: any bytes may be fed.
+-/
 import Klong.Model.Wire
 namespace Klong.C14
+open Klong.Wire
 
-structure State where
-  unit : Unit := ()
+/-! ### frames (own small copy of the C13 encoding: 16-byte id, 4-byte big-endian length, body) -/
 
-def init : State := {}
+def beBytes : Nat → Nat → Bytes
+  | 0, _ => []
+  | k + 1, n => beBytes k (n / 256) ++ [n % 256]
 
-def handle (s : State) (_ws : List String) : State × String := (s, "bad-op")
+def beVal (bs : Bytes) : Nat := bs.foldl (fun acc b => acc * 256 + b) 0
+
+def encodeFrame (id : Nat) (body : Bytes) : Bytes :=
+  beBytes 16 id ++ beBytes 4 body.length ++ body
+
+/-- `stream_recv_msg` on a buffer: a complete frame and the rest, or `none` (must wait / EOF inside) -/
+def decodeFrame (buf : Bytes) : Option (Nat × Bytes × Bytes) :=
+  if buf.length < 20 then none
+  else
+    let len := beVal ((buf.drop 16).take 4)
+    if buf.length < 20 + len then none
+    else some (beVal (buf.take 16), (buf.drop 20).take len, buf.drop (20 + len))
+
+/-! ### state -/
+
+inductive Variant | pinned | fixed
+deriving Repr, DecidableEq
+
+/-- exception classes the cleanup hands to waiting callers -/
+inductive Exc
+  | lost      -- KlongIPCConnectionFailureException
+  | closed    -- KGRemoteCloseConnectionException
+deriving Repr, DecidableEq
+
+inductive Fut
+  | unres
+  | res (b : Bytes)
+  | failed (e : Exc)
+deriving Repr, DecidableEq
+
+inductive Outcome
+  | ok (b : Bytes)   -- `call` returned the unpickled body
+  | noop             -- `close()` on a client that is not running
+  | notOpen          -- KlongException("connection not established")
+  | sendErr          -- the send step raised (writer is None / drain failed)
+  | exc (e : Exc)
+deriving Repr, DecidableEq
+
+inductive Phase
+  | idle | checked | registered | submitted | sent | waiting
+  | done (o : Outcome)
+deriving Repr, DecidableEq
+
+structure Call where
+  phase : Phase := .idle
+  fut : Fut := .unres
+deriving Repr, DecidableEq
+
+inductive Lst
+  | listening
+  | iterating (e : Exc) (todo : List Nat) (n : Nat)  -- pinned: inside `for f in d.values()`
+  | snapped (e : Exc) (items : List Nat)             -- fixed: after `list(d.values())`
+  | failing (e : Exc) (items : List Nat)             -- fixed: after `d.clear()`
+  | exited                                           -- `_run_exit_event` set
+  | crashed                                          -- the cleanup raised inside `finally`
+deriving Repr, DecidableEq
+
+inductive Label
+  -- caller thread
+  | check (c : Nat) (close : Bool)
+  | reg (c : Nat)
+  | submit (c : Nat)
+  -- io loop
+  | send (c : Nat)
+  | drain (c : Nat)
+  | deliver (c : Nat)
+  | recv
+  | clr
+  | cl
+  -- environment (server, network)
+  | feed (b : Bytes)
+  | eof
+  | reset
+  | provClose
+  | breakWriter
+deriving Repr, DecidableEq
+
+def Label.isIo : Label → Bool
+  | .send _ | .drain _ | .deliver _ | .recv | .clr | .cl => true
+  | _ => false
+
+structure St where
+  variant : Variant
+  closeBody : Bytes          -- pickle of KGRemoteCloseConnection()
+  failBodies : List Bytes    -- server-push requests whose local evaluation raises
+  calls : Nat → Call
+  n : Nat                    -- calls with index ≥ n have not started
+  pending : List Nat         -- `pending_responses`, insertion order
+  writer : Bool              -- `nc.writer is not None`
+  provOpen : Bool            -- `conn_provider.is_open()`
+  wrBroken : Bool            -- `writer.drain()` raises
+  running : Bool
+  lst : Lst
+  inbuf : Bytes
+  eof : Bool
+  inErr : Bool
+  outbox : List (Nat × Bytes)      -- frames written (requests carry an empty body here)
+  delivered : List (Nat × Bytes)   -- ghost: frames the listener matched to a pending id
+
+def init (v : Variant) (closeBody : Bytes) (failBodies : List Bytes) : St :=
+  { variant := v, closeBody, failBodies, calls := fun _ => {}, n := 0, pending := [],
+    writer := true, provOpen := true, wrBroken := false, running := true, lst := .listening,
+    inbuf := [], eof := false, inErr := false, outbox := [], delivered := [] }
+
+def upd (f : Nat → Call) (c : Nat) (v : Call) : Nat → Call := fun k => if k = c then v else f k
+
+def St.setPhase (s : St) (c : Nat) (p : Phase) : St :=
+  { s with calls := upd s.calls c { s.calls c with phase := p } }
+
+def St.setFut (s : St) (c : Nat) (f : Fut) : St :=
+  { s with calls := upd s.calls c { s.calls c with fut := f } }
+
+/-- the coroutine of call `c` ends: `fixed` pops its id from the table -/
+def St.finish (s : St) (c : Nat) (o : Outcome) : St :=
+  let s := s.setPhase c (.done o)
+  match s.variant with
+  | .pinned => s
+  | .fixed => { s with pending := s.pending.erase c }
+
+def Lst.cleaning : Lst → Bool
+  | .iterating .. | .snapped .. | .failing .. => true
+  | _ => false
+
+/-- `_run`'s `finally`: `writer = None`, then the cleanup begins (iterator / snapshot created) -/
+def St.lexit (s : St) (e : Exc) : St :=
+  match s.variant with
+  | .pinned => { s with writer := false, lst := .iterating e s.pending s.pending.length }
+  | .fixed => { s with writer := false, lst := .snapped e s.pending }
+
+def outcomeOf : Fut → Option Outcome
+  | .unres => none
+  | .res b => some (.ok b)
+  | .failed e => some (.exc e)
+
+/-- one step; `none` = the label is not enabled -/
+def step (s : St) : Label → Option St
+  | .check c close =>
+    if (s.calls c).phase = .idle then
+      let s : St := { s with n := max s.n (c + 1) }
+      if close && !s.running then some (s.setPhase c (.done .noop))
+      else if s.provOpen then some (s.setPhase c .checked)
+      else some (s.setPhase c (.done .notOpen))
+    else none
+  | .reg c =>
+    if (s.calls c).phase = .checked then
+      some { s.setPhase c .registered with pending := s.pending ++ [c] }
+    else none
+  | .submit c =>
+    if (s.calls c).phase = .registered then some (s.setPhase c .submitted) else none
+  | .send c =>
+    if (s.calls c).phase = .submitted && !s.lst.cleaning then
+      if s.writer then some { s.setPhase c .sent with outbox := s.outbox ++ [(c, [])] }
+      else some (s.finish c .sendErr)
+    else none
+  | .drain c =>
+    if (s.calls c).phase = .sent && !s.lst.cleaning then
+      if s.wrBroken then some (s.finish c .sendErr) else some (s.setPhase c .waiting)
+    else none
+  | .deliver c =>
+    if (s.calls c).phase = .waiting && !s.lst.cleaning then
+      match outcomeOf (s.calls c).fut with
+      | some o => some (s.finish c o)
+      | none => none
+    else none
+  | .recv =>
+    if s.lst = .listening then
+      if s.inErr then some (s.lexit .lost)
+      else
+        match decodeFrame s.inbuf with
+        | none => if s.eof then some (s.lexit .lost) else none
+        | some (id, body, rest) =>
+          let s : St := { s with inbuf := rest }
+          if id ∈ s.pending then
+            let s : St := { s.setFut id (.res body) with
+                        pending := s.pending.erase id, delivered := s.delivered ++ [(id, body)] }
+            if body = s.closeBody then some ({ s with running := false }.lexit .closed) else some s
+          else if body = s.closeBody then
+            if s.wrBroken then some (s.lexit .lost)
+            else some ({ s with running := false, outbox := s.outbox ++ [(id, body)] }.lexit .closed)
+          else if body ∈ s.failBodies then some (s.lexit .lost)
+          else if s.wrBroken then some (s.lexit .lost)
+          else some { s with outbox := s.outbox ++ [(id, body)] }
+    else none
+  | .clr =>
+    match s.lst with
+    | .snapped e items => some { s with pending := [], lst := .failing e items }
+    | _ => none
+  | .cl =>
+    match s.lst with
+    | .iterating e todo n =>
+      if s.pending.length ≠ n then some { s with lst := .crashed }   -- RuntimeError: changed size
+      else
+        match todo with
+        | [] => some { s with pending := [], lst := .exited }
+        | c :: rest =>
+          if (s.calls c).fut = .unres then some { s.setFut c (.failed e) with lst := .iterating e rest n }
+          else some { s with lst := .crashed }                          -- InvalidStateError
+    | .failing e items =>
+      match items with
+      | [] => some { s with lst := .exited }
+      | c :: rest =>
+        if (s.calls c).fut = .unres then some { s.setFut c (.failed e) with lst := .failing e rest }
+        else some { s with lst := .failing e rest }
+    | _ => none
+  | .feed b => if s.eof then none else some { s with inbuf := s.inbuf ++ b }
+  | .eof => some { s with eof := true }
+  | .reset => some { s with inErr := true }
+  | .provClose => some { s with provOpen := false }
+  | .breakWriter => some { s with wrBroken := true }
+
+def enabled (s : St) (l : Label) : Bool := (step s l).isSome
+
+/-- run a schedule; labels that are not enabled are skipped (the state does not change) -/
+def run (s : St) : List Label → St
+  | [] => s
+  | l :: ls => run ((step s l).getD s) ls
+
+/-- run a schedule strictly: `none` as soon as a label is not enabled -/
+def runStrict (s : St) : List Label → Option St
+  | [] => some s
+  | l :: ls => (step s l).bind (fun s' => runStrict s' ls)
+
+/-- the io-loop labels that can be enabled at all in `s` (calls ≥ `n` are idle) -/
+def ioLabels (s : St) : List Label :=
+  [.recv, .clr, .cl] ++ (List.range s.n).flatMap (fun c => [.send c, .drain c, .deliver c])
+
+/-- decidable form of "no io-loop step is enabled" -/
+def ioIdle (s : St) : Bool := (ioLabels s).all (fun l => !enabled s l)
+
+/-- a caller blocked in `.result()` -/
+def blocked (p : Phase) : Bool :=
+  match p with
+  | .submitted | .sent | .waiting => true
+  | _ => false
+
+/-- decidable: some started call is blocked -/
+def anyBlocked (s : St) : Bool := (List.range s.n).any (fun c => blocked (s.calls c).phase)
+
+/-! ### driver -/
+
+def showExc : Exc → String
+  | .lost => "lost"
+  | .closed => "closed"
+
+def showFut : Fut → String
+  | .unres => "unres"
+  | .res b => s!"res:{toHex b}"
+  | .failed e => s!"failed:{showExc e}"
+
+def showOutcome : Outcome → String
+  | .ok b => s!"ok:{toHex b}"
+  | .noop => "noop"
+  | .notOpen => "notopen"
+  | .sendErr => "senderr"
+  | .exc e => s!"exc:{showExc e}"
+
+def showPhase : Phase → String
+  | .idle => "idle"
+  | .checked => "checked"
+  | .registered => "registered"
+  | .submitted => "submitted"
+  | .sent => "sent"
+  | .waiting => "waiting"
+  | .done o => s!"done:{showOutcome o}"
+
+def showNats (l : List Nat) : String := ",".intercalate (l.map toString)
+
+def showLst : Lst → String
+  | .listening => "listening"
+  | .iterating .. => "cleaning"
+  | .snapped .. => "cleaning"
+  | .failing .. => "cleaning"
+  | .exited => "exited"
+  | .crashed => "crashed"
+
+def b01 (b : Bool) : String := if b then "1" else "0"
+
+def digest (s : St) : String :=
+  let calls := (List.range s.n).map fun c =>
+    s!"{c}/{showPhase (s.calls c).phase}/{showFut (s.calls c).fut}"
+  s!"lst={showLst s.lst} writer={b01 s.writer} running={b01 s.running} pending={showNats s.pending} " ++
+  s!"calls={";".intercalate calls} out={s.outbox.length} idle={b01 (ioIdle s)} blocked={b01 (anyBlocked s)}"
+
+def parseLabel (ws : List String) : Option Label :=
+  match ws with
+  | op :: rest =>
+    let fs := fields rest
+    let c := natField fs "c"
+    match op with
+    | "check" => c.map fun c => .check c (fieldD fs "close" == "1")
+    | "reg" => c.map .reg
+    | "submit" => c.map .submit
+    | "send" => c.map .send
+    | "drain" => c.map .drain
+    | "deliver" => c.map .deliver
+    | "recv" => some .recv
+    | "clr" => some .clr
+    | "cl" => some .cl
+    | "feed" => (parseHex (fieldD fs "b")).map .feed
+    | "eof" => some .eof
+    | "reset" => some .reset
+    | "provclose" => some .provClose
+    | "breakwriter" => some .breakWriter
+    | _ => none
+  | [] => none
+
+def handle (s : St) (ws : List String) : St × String :=
+  match ws with
+  | "new" :: rest =>
+    let fs := fields rest
+    let v := match fieldD fs "variant" with
+      | "pinned" => some Variant.pinned
+      | "fixed" => some Variant.fixed
+      | _ => none
+    match v, parseHex (fieldD fs "close"), (listField fs "fail").mapM parseHex with
+    | some v, some cb, some fb => let s' := init v cb fb; (s', "ok " ++ digest s')
+    | _, _, _ => (s, "bad-op")
+  | "encode" :: rest =>
+    let fs := fields rest
+    match natField fs "id", parseHex (fieldD fs "b") with
+    | some id, some b => (s, "frame=" ++ toHex (encodeFrame id b))
+    | _, _ => (s, "bad-op")
+  | _ =>
+    match parseLabel ws with
+    | some l =>
+      match step s l with
+      | some s' => (s', "ok " ++ digest s')
+      | none => (s, "disabled " ++ digest s)
+    | none => (s, "bad-op")
 
 end Klong.C14
